@@ -10,7 +10,6 @@ import (
 	"bytes"
 	"fmt"
 	"math/rand"
-	"runtime"
 	"strings"
 	"sync"
 	"time"
@@ -28,8 +27,8 @@ import (
 
 // engineGoroutines lists the goroutines that are inside engine code (a frame of uniflow/pkg).
 func engineGoroutines() []string {
-	buf := make([]byte, 4<<20)
-	n := runtime.Stack(buf, true)
+	buf := allStacks()
+	n := len(buf)
 	var res []string
 	for _, blk := range bytes.Split(buf[:n], []byte("\n\n")) {
 		s := string(blk)
@@ -446,7 +445,7 @@ func runC05Workflows(seed int64, tier string) map[string]any {
 	r := rand.New(rand.NewSource(seed + 7))
 	n := 60
 	if tier == "thorough" {
-		n = 800
+		n = 300
 	}
 	hist := map[string]int{}
 	out := map[string]any{"workloads": n}
